@@ -132,10 +132,41 @@ func runVecHistory(r *rand.Rand, p vecParams, o vecHistOpts, t *Trace) *Case {
 			t.Stat("vec.train_error")
 		}
 	}
+	emitDump := func() {
+		st := comet.VerifSnapshot(idx)
+		dsub := 1
+		if p.m > 0 {
+			dsub = p.dim / p.m
+		}
+		ops = append(ops, func(c *Case) {
+			c.N(6).B(st.Trained).Vecs(st.Centroids)
+			c.N(len(st.Codebooks))
+			for _, b := range st.Codebooks {
+				n := len(b) / dsub
+				c.N(n)
+				for k := 0; k < n; k++ {
+					c.Vec(b[k*dsub : (k+1)*dsub])
+				}
+			}
+			c.N(len(st.Lists))
+			for _, l := range st.Lists {
+				c.N(len(l))
+				for _, e := range l {
+					c.U(uint64(e.ID)).Vec(e.Vector).Bytes(e.Code)
+				}
+			}
+			c.U32s(st.Deleted)
+		})
+		t.Stat("vec.dump")
+	}
 	if o.trainFirst && p.kind != 0 {
 		emitTrain(o.ntrain)
+		emitDump()
 	}
 	for step := 0; step < o.nops; step++ {
+		if step == o.nops-1 || r.Intn(7) == 0 {
+			emitDump()
+		}
 		x := r.Intn(100)
 		switch {
 		case x < 38: // add
